@@ -96,12 +96,15 @@ def queries(ctx):
         for sh in range(7):
             ind(name, sh)
     # ---- concurrent half (Engine S)
-    def conc(sc, R, tiers, keys=None, extra=(), timeout=3000, other=4, big=None):
+    RO_BASE = ["parsec_hash_table_s.2", "parsec_hash_table_s.3", "parsec_hash_table_s.4", "parsec_hash_table_s.5", "parsec_hash_table_s.6",
+               "parsec_key_fn_s.0", "parsec_key_fn_s.1", "parsec_key_fn_s.2", "parsec_hash_table_item_s.2"]
+    RO_NORESIZE = RO_BASE + ["parsec_hash_table_s.8", "parsec_hash_table_head_s.1", "parsec_hash_table_head_s.2", "parsec_hash_table_head_s.4"]
+    def conc(sc, R, tiers, keys=None, extra=(), timeout=3000, other=4, big=None, ro=RO_BASE):
         name, what = SCEN[sc]
         kd = ["KEY%d=%dULL" % (i, k) for i, k in enumerate(keys or KEYS)]
         qs.append(Q("conc_%s_r%d" % (name, R), [], defs=kd + ["SCEN=%d" % sc] + list(extra), engine="S",
                     units=[U, "parsec/class/parsec_hash_table.h", RW],
-                    gen=thread_loop_bounds(seqir(["hc.c", "repo:" + RW], threads=["thread0", "thread1"], rounds=R, drain=True, benign=["nanosleep"]),
+                    gen=thread_loop_bounds(seqir(["hc.c", "repo:" + RW], threads=["thread0", "thread1"], rounds=R, drain=True, benign=["nanosleep"], ro_fields=ro),
                                            ["thread0", "thread1"], spin=3, other=other, big=big or {}),
                     unwind=9, object_bits=12, timeout=timeout, tiers=tiers, slow=True,
                     info={"symbolic": ["schedule: every SC interleaving with <= %d scheduling slots per thread, then deterministic drain (both threads must complete)" % R],
@@ -109,8 +112,8 @@ def queries(ctx):
                           "bounds": {"threads": 2, "rounds": R, "levels": 3},
                           "functions": FUNCS + ["key_functions.* are indirect calls: atomic"], "stubs": STUBS + ["nanosleep (benign, elided)"]}))
     conc(3, 2, ("quick", "thorough"), other=5)
-    conc(2, 2, ("quick", "thorough"))
-    conc(4, 2, ("quick", "thorough"))
+    conc(2, 2, ("quick", "thorough"), ro=RO_NORESIZE)
+    conc(4, 2, ("quick", "thorough"), ro=RO_NORESIZE)
     for sc in (1, 3, 5, 6, 7):
         conc(sc, 2, ("thorough",), keys=(KEYS[:3] + [KEYS[0]]) if sc == 5 else None)
     for sc in (1, 2, 3, 4, 5, 6, 7):
